@@ -165,9 +165,12 @@ def run_case(case, ctx):
     if remove:
         ctx.cls("remove")
 
+    npflags = case["sub"] % 4 == 1      # flags given as numpy.bool_ (a cell of a parameter table)
+
     def make(skip):
-        return CategoriesToIntegers(columns=list(cat_cols) if explicit else None, remove=remove, single=single,
-                                    skip_errors=skip)
+        return CategoriesToIntegers(columns=list(cat_cols) if explicit else None, remove=remove,
+                                    single=numpy.bool_(single) if npflags else single,
+                                    skip_errors=numpy.bool_(skip) if npflags else skip)
 
     if not explicit and not all(train[c].dtype == object for c in cat_cols):
         ctx.excluded("env: pandas did not keep dtype object")
